@@ -777,6 +777,10 @@ def _rep(kind):
         _REPS["scheduler"] = torch.optim.lr_scheduler.StepLR(opt, 1)
     elif kind == "tensor":
         _REPS[kind] = torch.ones(2)
+    elif kind == "tensor_grad":
+        _REPS[kind] = torch.ones(2, requires_grad=True)
+    elif kind == "tensor_nonleaf":
+        _REPS[kind] = torch.ones(2, requires_grad=True) * 3 + 1  # result of a differentiable op: requires_grad, grad_fn is not None
     elif kind == "parameter":
         _REPS[kind] = torch.nn.Parameter(torch.ones(2))
     elif kind == "tlogger":
@@ -842,12 +846,22 @@ def mk_kind(kind, **payload):
 
 # attributes answered from the representative (kind constants; they never reach the decoded value)
 REP_ATTRS = {
-    "tensor": {"shape", "dtype", "device", "requires_grad"},
-    "parameter": {"shape", "dtype", "device", "requires_grad"},
+    "tensor": {"shape", "dtype", "device"},
+    "parameter": {"shape", "dtype", "device"},
     "tlogger": {"log_dir", "comment", "max_queue", "flush_secs", "filename_suffix"},
     "pylogger": {"name", "level"},
     "module": {"_non_persistent_buffers_set"},
 }
+
+
+class GradFn:
+    """stands for the autograd node of a non-leaf tensor (only its None-ness is observable)"""
+
+    _pyvc_value = True
+
+
+def tensor_rep(rg, leaf=True):
+    return _rep("tensor_nonleaf" if not leaf else "tensor_grad" if rg else "tensor")
 
 
 def kind_getattr(interp, k, name):
@@ -856,6 +870,28 @@ def kind_getattr(interp, k, name):
     if name == "__class__":
         return type(rep)
     kd = k.kind
+    if kd in ("tensor", "parameter"):
+        # autograd state of a tensor: requires_grad flag and leaf-ness are part of the abstract value
+        rg = p.get("rg", bool(rep.requires_grad))
+        leaf = p.get("leaf", True)
+        if name == "requires_grad":
+            return rg
+        if name == "is_leaf":
+            return leaf
+        if name == "grad_fn":
+            return None if leaf else GradFn()
+        if name == "detach":
+            # same values / dtype, cut from the graph: requires_grad False, no grad_fn, plain Tensor
+            return lambda _k=k: Kind("tensor", rep=tensor_rep(False), tok=_k.payload.get("tok"), rg=False, leaf=True)
+        if name == "requires_grad_":
+            def requires_grad_(flag=True, _k=k):
+                if not _k.payload.get("leaf", True) and not flag:
+                    raise RuntimeError("you can only change requires_grad flags of leaf variables")
+                _k.payload["rg"] = bool(flag)
+                if _k.kind == "tensor":
+                    _k.payload["rep"] = tensor_rep(bool(flag), _k.payload.get("leaf", True))
+                return _k
+            return requires_grad_
     if kd == "ndarray":
         if name == "ndim":
             return len(p["shape"])
@@ -1338,7 +1374,13 @@ def install(reg):
         if isinstance(c, ABytes) and isinstance(c.tok, tuple) and c.tok and c.tok[0] == "torch":
             if weights_only is not False:
                 raise RaiseSig(RuntimeError("torch.load(weights_only=True) rejects arbitrary pickles"))
-            return c.tok[1]
+            v = c.tok[1]
+            if isinstance(v, Kind) and v.kind in ("tensor", "parameter"):
+                # a fresh tensor object: values, dtype, class and requires_grad are pickled; the autograd graph (grad_fn) is not,
+                # so a non-leaf tensor comes back as a leaf with the same requires_grad flag
+                rg = v.payload.get("rg", bool(v.payload["rep"].requires_grad))
+                return Kind(v.kind, rep=tensor_rep(rg) if v.kind == "tensor" else v.payload["rep"], tok=v.payload.get("tok"), rg=rg, leaf=True)
+            return v
         raise RaiseSig(RuntimeError("torch.load: not a torch pickle"))
 
     M[torch.load] = m_torch_load
